@@ -914,6 +914,21 @@ static inline void verif_lock_guard_dtor(std_lock_guard_std_mutex *g) { g->m->g_
                 return r if base == "operator==" else X("un", "!", r, ty=B)
         if base in ("find_if", "stable_partition", "partition") and len(args) == 3:
             return self.algorithm(base, args, ps)
+        if base in ("remove", "find") and len(args) == 3 and tr.lower(tr.ety(args[0]).noref()).kind == "ptr":
+            it = tr.lower(tr.ety(args[0]).noref())
+            if it.to.kind not in ("builtin", "ptr", "enum"):
+                raise ExtractionBreak("std::%s over elements of type %s" % (base, it.to.key()))
+            T = tr.ctype(it.to)
+            name = "verif_%s__%s" % (base, sanitize(T))
+            if base == "remove":
+                body = "static %(T)s *%(n)s(%(T)s *first, %(T)s *last, %(T)s *value) { %(T)s *w = first; for (; first != last; ++first) if (!(*first == *value)) { *w = *first; ++w; } return w; }\n"
+            else:
+                body = "static %(T)s *%(n)s(%(T)s *first, %(T)s *last, %(T)s *value) { for (; first != last; ++first) if (*first == *value) return first; return last; }\n"
+            self.text.setdefault("algo:" + name, body % dict(T=T, n=name))
+            tr.cur.calls[name] = True
+            tr.rule("std::%s model" % base)
+            tr.assume("std::%s" % base, "reference model as C code over a pointer range of scalars (lib/stdlib.py); loops unwound (bounded units)")
+            return X("call", name, [tr.rv(args[0]), tr.rv(args[1]), tr.bind_ref(args[2])], ty=it)
         if base in ("mismatch", "equal") and len(args) == 3:
             return self.algorithm2(base, args, rets)
         if base == "make_pair" and len(args) == 2:
@@ -953,8 +968,9 @@ static void *verif_memcpy_code(void *dst, const void *src, unsigned long n) { un
             self.contracts["verif_memcpy"] = ("void *verif_memcpy(void *dst, const void *src, unsigned long n)\n"
                                               "__CPROVER_requires(n == 0 || (__CPROVER_w_ok(dst, n) && __CPROVER_r_ok(src, n)))\n"
                                               "__CPROVER_ensures(__CPROVER_return_value == dst)\n"
+                                              "__CPROVER_ensures(IMP(verif_gi < n, ((const char *)dst)[verif_gi] == ((const char *)src)[verif_gi]))\n"
                                               "__CPROVER_assigns(__CPROVER_object_upto(dst, n))")
-            tr.assume("memcpy", "assumed contract: requires both ranges valid for n bytes (this precondition IS checked at every call site); assigns exactly dst[0..n); copied byte values are not tracked")
+            tr.assume("memcpy", "assumed contract: requires both ranges valid for n bytes (this precondition IS checked at every call site); assigns exactly dst[0..n); of the copied values only the byte at the ghost position verif_gi is known to equal the source byte (a sound instance of 'every byte copied')")
             self.use_contract("verif_memcpy")
             return X("call", "verif_memcpy", [tr.rv(args[0]), tr.rv(args[1]), tr.rv(args[2])], ty=parse_type("void *"))
         if base == "strlen":
